@@ -12,7 +12,7 @@ use altrios_core::meet_pass::dispatch::run_dispatch;
 use altrios_core::meet_pass::dispatch::verif_hooks::{set_dispatch_observer, DispAuth};
 use altrios_core::prelude::*;
 use altrios_core::track::*;
-use altrios_core::train::*;
+use altrios_core::train::SpeedLimitTrainSim;
 use altrios_core::validate::*;
 use std::cell::RefCell;
 use std::rc::Rc;
@@ -332,6 +332,12 @@ fn raw_plan_ok(net: &[Link], t: &Tbl) -> bool {
     true
 }
 
+/// every real link that conflicts with a link on which some authority is still held is marked in links_blocked
+fn blocked_covers(net: &[Link], t: &Tbl, blocked: &[u32]) -> bool {
+    for y in 0..t.len() { for a in &t[y] { if a.cx == INF { for x in conf(net, y) { if x != 0 && blocked.get(x).copied().unwrap_or(0) == 0 { return false; } } } } }
+    true
+}
+
 fn auth_json(l: usize, i: usize, a: &A) -> serde_json::Value {
     serde_json::json!({"link": l, "idx": i, "train": a.tr, "arrive_entry": a.ae, "arrive_exit": a.ax, "clear_entry": a.ce, "clear_exit": a.cx})
 }
@@ -361,7 +367,7 @@ impl<'a> Case<'a> {
 fn oracle_table(ctx: &mut Ctx, case: &Case, phase: &str, k: usize, t: &Tbl, ob: &[Vec<f64>], blocked: &[u32]) {
     let net = &case.sc.net;
     let sp = spacing();
-    let fix = |_l: usize, a: &A| -> A { *a };
+    let fix = |_l: usize, a: &A| -> A { *a }; // (the pinned code rewrote arrive_entry on early exit; repaired by C04-fix-1)
     let wh = format!("{} snapshot {} ({})", case.id, k, phase);
     for l in 1..t.len() {
         // opposing direction / declared mutual exclusion
@@ -505,7 +511,12 @@ fn run_scen(ctx: &mut Ctx, sc: &Scen, seed: u64, verbose: bool) {
     let plan: Option<Vec<Vec<(usize, f64)>>> = match &res {
         Some(Ok(p)) => { ctx.count("c04.dispatch.ok"); Some(p.iter().map(|v| v.iter().map(|x| (x.link_idx.idx(), x.time.value)).collect()).collect()) }
         Some(Err(e)) => { ctx.count("c04.dispatch.err"); ctx.sample("c04.dispatch_err", serde_json::json!(format!("{:?}", e).chars().take(240).collect::<String>())); None }
-        None => { ctx.count("c04.dispatch.panic"); ctx.sample("c04.dispatch_panic", serde_json::json!({"seed": format!("{:#x}", seed), "msg": last_panic()})); None }
+        None => {
+            // aborts of run_dispatch belong to C05; counted here by kind
+            let m = last_panic();
+            let kind = if m.contains("was placed prior to") || m.contains("was placed past") { "train_placed_into_another" } else if m.contains("time_update <= self.time_update_next") { "time_runs_backwards" } else if m.contains("out of range") { "index_out_of_range" } else { "other" };
+            ctx.count("c04.dispatch.panic"); ctx.count(&format!("c04.dispatch.panic.{}", kind));
+            ctx.sample(&format!("c04.dispatch_panic.{}", kind), serde_json::json!({"seed": format!("{:#x}", seed), "msg": m})); None }
     };
     if verbose { dump(sc, &snaps, &plan); eprintln!("result: {}", match &res { Some(Ok(_)) => "ok".to_string(), Some(Err(e)) => format!("err {:?}", e).chars().take(600).collect(), None => format!("panic {}", last_panic()) }); }
     if snaps.is_empty() { return; }
@@ -515,7 +526,7 @@ fn run_scen(ctx: &mut Ctx, sc: &Scen, seed: u64, verbose: bool) {
     // first snapshot showing the known early-exit defect (a follower terminated behind a train still in the link)
     let early = |t: &Tbl| t.iter().any(|v| (1..v.len()).any(|j| v[j].ax == v[j].cx && v[j].cx.is_finite() && (1..j).any(|i| v[i].cx > v[j].cx)));
     let k0 = snaps.iter().position(|s| early(&s.tbl)).unwrap_or(usize::MAX);
-    if k0 != usize::MAX { ctx.count("c04.scen.with_early_exit_behind_leader"); }
+    if k0 != usize::MAX { ctx.count("c04.scen.with_early_exit_behind_leader"); if res.is_none() { ctx.count("c04.dispatch.panic_after_early_exit"); } }
     for (k, s) in snaps.iter().enumerate() {
         case.tainted.set(k >= k0);
         ctx.count(&format!("c04.snap.{}", s.phase));
@@ -531,8 +542,9 @@ fn run_scen(ctx: &mut Ctx, sc: &Scen, seed: u64, verbose: bool) {
                     if !ok { ctx.count("c04.snap.raw_plan_not_ok"); }
                     // the only precondition the unchanged code is known to break: a train terminating behind a leader that is still in the link
                     let pre = !ops.iter().any(|o| matches!(o, Op::Fin { l, i, t } if s.tbl[*l][*i - 1].cx > *t));
-                    ctx.op("C04", "c04_step", &format!("{} {} {} {} {}", f(spacing()), f(OVERLAP), net_tok, tok_tbl(&prev), seq(&ops, |o| o.tok())),
-                        &format!("ok {} {} {}", b(pre), b(ok), tok_tbl(&s.tbl)));
+                    let cov = blocked_covers(&sc.net, &s.tbl, &s.blocked);
+                    ctx.op("C04", "c04_step", &format!("{} {} {} {} {} {}", f(spacing()), f(OVERLAP), net_tok, tok_tbl(&prev), seq(&ops, |o| o.tok()), seq(&s.blocked, |x| x.to_string())),
+                        &format!("ok {} {} {} {}", b(pre), b(ok), b(cov), tok_tbl(&s.tbl)));
                 }
                 Err(why) => {
                     case.fail(ctx, "table_effects", &id, format!("snapshot {} ({}): the authority table changed in a way that is not a push/close/finish/pop/reset: {}", k, s.phase, why), case.input(serde_json::json!({"snapshot": k})));
@@ -603,7 +615,7 @@ pub fn run(ctx: &mut Ctx, r: &mut Rng, tier: &str) {
         run_scen(ctx, &sc, seed, true);
         return;
     }
-    let n: usize = std::env::var("C04_N").ok().and_then(|x| x.parse().ok()).unwrap_or(if tier == "thorough" { 6000 } else { 400 });
+    let n: usize = std::env::var("C04_N").ok().and_then(|x| x.parse().ok()).unwrap_or(if tier == "thorough" { 6000 } else { 800 });
     for _ in 0..n {
         let mut rr = r.fork();
         let seed = rr.0;
